@@ -49,6 +49,10 @@ package j5convert
 //@   loop 1 invariant forall i int :: 0 <= i && i < len(node.Schema.Options) ==> node.Schema.Options[i] == old(node.Schema.Options[i]) && node.Schema.Options[i].Name == old(node.Schema.Options[i].Name) && node.Schema.Options[i].Number == old(node.Schema.Options[i].Number)
 //@   loop 1 invariant node.Schema == old(node.Schema) && node.Schema.Options == old(node.Schema.Options) && node.Schema.Name == old(node.Schema.Name) && node.Schema.Prefix == old(node.Schema.Prefix)
 //@   loop 1 invariant optionsToSet == node.Schema.Options[k:]
+// an enum that carries info annotations (on itself or on an option) imports the file that defines them (C07)
+//@   requires fileOK(ww)
+//@   loop 2 invariant needsExt || (node.Schema.Info == nil && forall i int {node.Schema.Options[i]} :: 0 <= i && i < $iter ==> len(node.Schema.Options[i].Info) <= 0)
+//@   assert at addEnum#0 imports: imported(ww, "j5/ext/v1/annotations.proto") || (node.Schema.Info == nil && forall i int {node.Schema.Options[i]} :: 0 <= i && i < len(node.Schema.Options) ==> len(node.Schema.Options[i].Info) <= 0)
 
 // Declarations are appended in visiting order and earlier entries are never touched (C13), and a
 // file's dependency list is kept sorted and duplicate-free on every insertion (C14).
